@@ -179,6 +179,7 @@ Theorem proof_bound_to_this_transcript_ideal : forall O : Orc,
   (forall t1 t2 n, o_digest O t1 n = o_digest O t2 n -> t1 = t2) ->
   (forall t1 t2 n, List.length (o_digest O t1 n) = List.length (o_digest O t2 n)) ->
   (forall t1 t2 m l, o_digestSSL O t1 m l = o_digestSSL O t2 m l -> t1 = t2) ->
+  (forall t1 t2 m l, py_slice (o_digestSSL O t1 m l) (Some 16) None = py_slice (o_digestSSL O t2 m l) (Some 16) None -> t1 = t2) ->
   (forall a b n, o_hash O a n = o_hash O b n -> a = b) ->
   (forall a b n, o_pkcs1 O a n = o_pkcs1 O b n -> a = b) ->
   forall ver t1 t2 sa pm cr sr prf tag1 tag2 kt b,
@@ -196,6 +197,22 @@ Theorem checker_mismatch_fails_call :
      wrapper hs cl (Some w) fp = Err (OtherExn X_AuthenticationError)) /\
   (forall (e : exn) (cl : bool) (w : option (list Z)) (fp : list Z -> list Z), exists e', wrapper (Err e) cl w fp = Err e').
 Proof. exact (conj wrapper_accepts (conj wrapper_mismatch wrapper_failed_handshake)). Qed.
+
+(* FULL statement "whenever a call made with a Checker returns, the peer chain has the expected fingerprint"
+   including resumed connections: FALSE of the faithful model and of the code (finding F-C05-4) -- a resumed
+   connection skips the Checker unless checkResumedSession=True, and a server restores the client chain from a
+   ticket it sent before the Checker rejected that very chain.  Proved part: non-resumed connections or
+   checkResumedSession=True; missing hypothesis: resumed = false \/ check_resumed = true. *)
+Theorem checker_mismatch_fails_call_resumed_refuted :
+  exists s c w, wrapper_r (Ok s) false (Some w) (fun x => x) true false = Ok s /\
+                s_client_chain s = Some c /\ c <> w.
+Proof. exact wrapper_r_bypass_witness. Qed.
+
+Theorem checker_mismatch_fails_call_resumed_partial : forall hs cl w fp resumed chk s,
+  (resumed = false \/ chk = true) ->
+  wrapper_r hs cl (Some w) fp resumed chk = Ok s ->
+  hs = Ok s /\ exists c, (if cl then s_server_chain s else s_client_chain s) = Some c /\ fp c = w.
+Proof. exact wrapper_r_checked. Qed.
 
 (* F12: the server's own `scheme` (read at tlsconnection.py 3305) influences the check of a
    client brainpool CertificateVerify only through SignatureScheme.getHash failing *)
@@ -236,6 +253,7 @@ Example ideal_hash_hypotheses_satisfiable :
   let O := orc_const true in
   (forall t1 t2 n, o_digest O t1 n = o_digest O t2 n -> t1 = t2) /\
   (forall t1 t2 m l, o_digestSSL O t1 m l = o_digestSSL O t2 m l -> t1 = t2) /\
+  (forall t1 t2 m l, py_slice (o_digestSSL O t1 m l) (Some 16) None = py_slice (o_digestSSL O t2 m l) (Some 16) None -> t1 = t2) /\
   (forall a b n, o_hash O a n = o_hash O b n -> a = b) /\
   (forall a b n, o_pkcs1 O a n = o_pkcs1 O b n -> a = b).
 Proof. exact ideal_hash_instance. Qed.
